@@ -30,7 +30,7 @@ func some(r *rand.Rand, xs ...N) []N {
 // Scenario returns a (history, mutation, observation) triple.
 func Scenario(r *rand.Rand) (h, m, q []N) {
 	base := []N{Var("a", Num(1)), Var("b", Str("s")), Var("c", nil), Var("n", Num(0))}
-	switch r.Intn(19) {
+	switch r.Intn(21) {
 	case 0: // accessor properties: getter/setter functions are objects of the heap
 		acc := Obj()
 		if r.Intn(3) != 0 {
@@ -145,7 +145,11 @@ func Scenario(r *rand.Rand) (h, m, q []N) {
 		q = []N{hc(Call(Id("ga")), Un("typeof", Id("eval")), Un("typeof", Id("keep"))),
 			Cond(Bin("===", Un("typeof", Id("keep")), Str("function")), Call(Id("H"), EvalVia(Id("keep"), Expr(Id("a")))), Num(0)),
 			Cond(Bin("===", Un("typeof", Id("eval")), Str("function")), Call(Id("H"), EvalVia(Id("eval"), Expr(Id("a")))), Num(0))}
-		q = []N{q[0], Expr(q[1]), Expr(q[2])}
+		q = []N{q[0], Expr(q[1]), Expr(q[2]),
+			// restore the built-in under its own name: calls by the name eval are direct evals again (15.1.2.1.1)
+			hc(Call(Fn("", nil, Var("a", Str("local")),
+				If(Bin("===", Un("typeof", Id("keep")), Str("function")), Block(Expr(Asg("=", Id("eval"), Id("keep"))), Return(EvalVia(Id("eval"), Expr(Id("a"))))), nil),
+				Return(Str("no built-in kept")))))}
 	case 16: // the single [[ThrowTypeError]] function of a runtime (13.2.3): bound functions made before and after the copy share it
 		gd := func(o N, n string) N { return od("getOwnPropertyDescriptor", o, Str(n)) }
 		h = []N{FDecl("tf", nil, Return(Num(1))), Var("b1", Call(Dot(Id("tf"), "bind"), Null())), Var("t1", Dot(gd(Id("b1"), "caller"), "get"))}
@@ -169,6 +173,23 @@ func Scenario(r *rand.Rand) (h, m, q []N) {
 		m = some(r, Expr(Call(Dot(Id("d1"), "bump"))), Expr(Call(Dot(Id("d2"), "del"))))
 		q = []N{Var("dr", Call(Dot(Id("d1"), "del"))), hc(Idx(Id("dr"), Num(0)), Idx(Id("dr"), Num(1)), Idx(Id("dr"), Num(2)), Idx(Id("dr"), Num(3))),
 			Var("dr2", Call(Dot(Id("d2"), "del"))), hc(Idx(Id("dr2"), Num(0)), Idx(Id("dr2"), Num(2)))}
+	case 19: // objects WITHOUT own properties at copy time (plain, array, prototype object): their tables are not shared
+		h = []N{Var("reg", Obj()), Var("bag", Arr()), FDecl("Base", nil), Expr(Asg("=", Dot(Id("Base"), "prototype"), Obj())), Var("inst", New(Id("Base")))}
+		m = some(r, Expr(Asg("=", Dot(Id("reg"), "k"), Num(1))), Expr(Asg("=", Dot(Dot(Id("Base"), "prototype"), "hello"), Fn("", nil, Return(Num(7))))),
+			Expr(Asg("=", Idx(Id("bag"), Num(0)), Str("x"))), Expr(Asg("=", Dot(Id("bag"), "tag"), Num(2))))
+		q = []N{hc(Bin("in", Str("k"), Id("reg")), Dot(Id("reg"), "k"), Dot(od("keys", Id("reg")), "length"), Un("typeof", Dot(Id("inst"), "hello")),
+			Dot(Id("bag"), "length"), Dot(Id("bag"), "tag"), Dot(od("getOwnPropertyNames", Dot(Id("Base"), "prototype")), "length")),
+			Expr(Asg("=", Dot(Id("reg"), "z"), Num(26))), hc(Dot(Id("reg"), "z"), Dot(od("keys", Id("reg")), "length"))}
+	case 20: // extensibility and attributes fixed BEFORE the copy (freeze / seal / preventExtensions of object, array, function)
+		lock := []string{"freeze", "seal", "preventExtensions"}
+		h = []N{Var("fo", Obj("a", Num(1))), Var("fa", Arr(Num(1), Num(2))), FDecl("ff", nil),
+			Expr(od(lock[r.Intn(3)], Id("fo"))), Expr(od(lock[r.Intn(3)], Id("fa"))), Expr(od(lock[r.Intn(3)], Id("ff")))}
+		m = some(r, Expr(Asg("=", Dot(Id("fo"), "b"), Num(2))), Expr(Asg("=", Dot(Id("fo"), "a"), Num(5))), Expr(Un("delete", Dot(Id("fo"), "a"))),
+			Expr(Asg("=", Idx(Id("fa"), Num(2)), Num(3))), Expr(Asg("=", Dot(Id("ff"), "p"), Str("s"))))
+		q = []N{hc(od("isFrozen", Id("fo")), od("isSealed", Id("fo")), od("isExtensible", Id("fo")), od("isFrozen", Id("fa")), od("isExtensible", Id("fa")), od("isExtensible", Id("ff"))),
+			Expr(Asg("=", Dot(Id("fo"), "b"), Num(9))), Expr(Asg("=", Idx(Id("fa"), Num(2)), Num(9))), Expr(Asg("=", Dot(Id("ff"), "p"), Num(9))),
+			Try([]N{Expr(od("defineProperty", Id("fo"), Str("c"), Obj("value", Num(1))))}, "e", []N{hc(Str("define threw"), Bin("instanceof", Id("e"), Id("TypeError")))}, true, nil, false),
+			hc(Dot(od("keys", Id("fo")), "length"), Dot(Id("fo"), "a"), Dot(Id("fo"), "b"), Dot(Id("fa"), "length"), Un("typeof", Dot(Id("ff"), "p")))}
 	default: // object graph with cycles and shared sub-objects
 		h = []N{Var("x1", Obj("v", Num(1))), Var("x2", Obj("peer", Id("x1"), "v", Num(2))), Expr(Asg("=", Dot(Id("x1"), "peer"), Id("x2"))), Var("both", Arr(Id("x1"), Id("x2"), Id("x1")))}
 		m = some(r, Expr(Asg("=", Dot(Dot(Id("x1"), "peer"), "v"), Num(20))), Expr(Asg("=", Dot(Idx(Id("both"), Num(2)), "v"), Num(10))), Expr(Asg("=", Dot(Id("x2"), "peer"), Null())))
